@@ -69,6 +69,7 @@ impl<T, I: MRBIterator<Item = T>> Detached<I> {
     #[inline]
     pub unsafe fn set_index(&mut self, index: usize) {
         self.inner.set_local_index(index);
+        self.inner.set_cached_avail(0);
     }
 
     /// Resets the *local* index of the iterator. I.e., moves the iterator to the location occupied by its successor.
@@ -77,6 +78,7 @@ impl<T, I: MRBIterator<Item = T>> Detached<I> {
     pub fn reset_index(&mut self) {
         let new_idx = self.inner.succ_index();
         self.inner.set_local_index(new_idx);
+        self.inner.set_cached_avail(0);
     }
 
     /// Advances the iterator as in [`MRBIterator::advance()`], but does not modify the atomic counter,
